@@ -247,18 +247,34 @@ func c14Order(r *core.Report) {
 				sortNode = n
 				sorted = core.ObjOf(info, c.Args[0])
 				lf := p.ByLit[lit]
+				var iP, jP types.Object = lf.ParamObj(0), lf.ParamObj(1)
+				// a comparator that only forwards to a helper:  return less(frames[i], frames[j])
+				if len(lit.Body.List) == 1 {
+					if rs, ok := lit.Body.List[0].(*ast.ReturnStmt); ok && len(rs.Results) == 1 {
+						if hc, ok := core.Unparen(rs.Results[0]).(*ast.CallExpr); ok && len(hc.Args) == 2 {
+							if fo := core.Callee(info, hc); fo != nil {
+								if h := p.ByObj[fo.Origin()]; h != nil && h.Body != nil && h.ParamObj(1) != nil &&
+									core.Mentions(info, hc.Args[0], iP) && !core.Mentions(info, hc.Args[0], jP) &&
+									core.Mentions(info, hc.Args[1], jP) && !core.Mentions(info, hc.Args[1], iP) &&
+									core.Mentions(info, hc.Args[0], sorted) && core.Mentions(info, hc.Args[1], sorted) {
+									lf, iP, jP = h, h.ParamObj(0), h.ParamObj(1)
+								}
+							}
+						}
+					}
+				}
+				li := lf.Pkg.TypesInfo
 				lg := p.Graph(lf)
-				iP, jP := lf.ParamObj(0), lf.ParamObj(1)
 				// variables bound to GetIndex() of element i / j
 				fromI, fromJ := map[types.Object]bool{}, map[types.Object]bool{}
-				ast.Inspect(lit.Body, func(m ast.Node) bool {
+				ast.Inspect(lf.Body, func(m ast.Node) bool {
 					if as, ok := m.(*ast.AssignStmt); ok && len(as.Rhs) == 1 {
-						if cc, ok := core.Unparen(as.Rhs[0]).(*ast.CallExpr); ok && strings.HasSuffix(core.CalleeName(info, cc), ".GetIndex") {
-							if core.Mentions(info, cc.Fun, iP) {
-								fromI[core.ObjOf(info, as.Lhs[0])] = true
+						if cc, ok := core.Unparen(as.Rhs[0]).(*ast.CallExpr); ok && strings.HasSuffix(core.CalleeName(li, cc), ".GetIndex") {
+							if core.Mentions(li, cc.Fun, iP) {
+								fromI[core.ObjOf(li, as.Lhs[0])] = true
 							}
-							if core.Mentions(info, cc.Fun, jP) {
-								fromJ[core.ObjOf(info, as.Lhs[0])] = true
+							if core.Mentions(li, cc.Fun, jP) {
+								fromJ[core.ObjOf(li, as.Lhs[0])] = true
 							}
 						}
 					}
@@ -273,7 +289,7 @@ func c14Order(r *core.Report) {
 					}
 				}
 				if last != nil && len(last.Results) == 1 {
-					if be, ok := core.Unparen(last.Results[0]).(*ast.BinaryExpr); ok && be.Op == token.LSS && fromI[core.ObjOf(info, be.X)] && fromJ[core.ObjOf(info, be.Y)] {
+					if be, ok := core.Unparen(last.Results[0]).(*ast.BinaryExpr); ok && be.Op == token.LSS && fromI[core.ObjOf(li, be.X)] && fromJ[core.ObjOf(li, be.Y)] {
 						okCmp = true
 					}
 				}
